@@ -3,7 +3,7 @@
    OFFSET of view.go after the repairs F-C07-1,2,3,5) and Model/Query.v. *)
 From Coq Require Import ZArith List Bool Floats Permutation Sorted.
 Require Import Csvq.Model.Base Csvq.Model.Value Csvq.Model.Key Csvq.Model.SortVal.
-Require Import Csvq.Proofs.Order.
+Require Import Csvq.Proofs.Order Csvq.Proofs.OrderSWO.
 Import ListNotations.
 Open Scope Z_scope.
 
@@ -21,6 +21,33 @@ Theorem C07_order_by_has_no_inversion : forall (A : Type) ds (dom : list sortval
   forall l, Forall dom l -> StronglySorted (noinv ds) (isort ds l).
 Proof. intros A ds dom Ha Ht l Hl. exact (isort_sorted ds dom Ha Ht l Hl). Qed.
 Print Assumptions C07_order_by_has_no_inversion.
+
+(* the comparator IS a strict weak order on comparable key columns -- all-integer, all-datetime or
+   all (non-numeric) text columns with NULLs anywhere -- for every direction, NULL position and any
+   number of keys; so ORDER BY over such keys leaves no inversion (hypotheses discharged) *)
+Theorem C07_comparator_strict_weak_order_on_comparable_keys : forall cs ds x y z,
+  length ds = length cs -> tuple_in cs x -> tuple_in cs y -> tuple_in cs z ->
+  (svs_less x y ds = true -> svs_less y x ds = false) /\
+  (svs_less y x ds = false -> svs_less z y ds = false -> svs_less z x ds = false).
+Proof.
+  intros cs ds x y z Hl Hx Hy Hz. split.
+  - exact (svs_less_asym cs ds x y Hl Hx Hy).
+  - exact (svs_less_negtrans cs ds x y z Hl Hx Hy Hz).
+Qed.
+Print Assumptions C07_comparator_strict_weak_order_on_comparable_keys.
+
+Theorem C07_order_by_no_inversion_on_comparable_keys : forall (A : Type) cs ds (l : list (list sortval * A)),
+  length ds = length cs -> Forall (fun ka => tuple_in cs (fst ka)) l ->
+  StronglySorted (noinv ds) (isort ds l).
+Proof. intros A cs ds l Hl Hd. exact (order_by_sorted_on_comparable_keys cs ds l Hl Hd). Qed.
+Print Assumptions C07_order_by_no_inversion_on_comparable_keys.
+
+(* the class hypotheses are met by the sort values of integer-like / text cells and NULL *)
+Example C07_comparable_keys_nonvacuous :
+  tuple_in [KCInt; KCStr]
+    [new_sort_value false (VInt 3); new_sort_value false (VStr (mkS [97]%N [97]%N [65]%N None None None None))] /\
+  tuple_in [KCInt; KCStr] [new_sort_value false VNull; new_sort_value false VNull].
+Proof. vm_compute. repeat split; auto. Qed.
 
 Theorem C07_offset_drops_exactly_the_first_n : forall (A : Type) (n : Z) (l : list A),
   offset_rows n l = skipn (Z.to_nat (Z.max 0 n)) l /\
